@@ -1,6 +1,7 @@
 """C17 - noise generators are seed-reproducible continuous streams."""
 from __future__ import annotations
 
+import os
 import random
 
 import numpy as np
@@ -121,18 +122,35 @@ def record_long(spec):
         from speckit import noise
         rng = np.random.default_rng(seed)
         w = rng.standard_normal(70001)
-        a, b = np.asarray(g._a_coeffs), np.asarray(g._b_coeffs)
-        z0 = rng.standard_normal((a.shape[0], 1)) * 0.1
-        out, zf = noise._numba_lfilter_cascade(w.copy(), a, b, z0.copy())
-        y = w.copy()
-        zs = []
-        for i in range(a.shape[0]):
-            y, zfi = signal.lfilter(a[i], b[i], y, zi=z0[i])
-            zs.append(zfi[0])
-        scale = float(np.max(np.abs(y))) + 1e-300
-        qref = traces.q(max(float(np.max(np.abs(out - y))), float(np.max(np.abs(zf[:, 0] - np.array(zs))))) / scale, 2 ** 30)
+        # the generator's own coefficients, and those of extreme configurations (sections that are almost pass-through:
+        # f_min/fs = 1e-9, a very small exponent)
+        gens = [g, noise.alpha_noise(1e6, 1e-3, 1e4, 1.0, init_filter=False, seed=1), noise.alpha_noise(1e5, 1.0, 10.0, 0.03, init_filter=False, seed=1)]
+        worst = 0.0
+        for gg in gens:
+            a, b = np.asarray(gg._a_coeffs), np.asarray(gg._b_coeffs)
+            z0 = rng.standard_normal((a.shape[0], 1)) * 0.1
+            out, zf = noise._numba_lfilter_cascade(w.copy(), a, b, z0.copy())
+            y = w.copy()
+            zs = []
+            for i in range(a.shape[0]):
+                y, zfi = signal.lfilter(a[i], b[i], y, zi=z0[i])
+                zs.append(zfi[0])
+            scale = float(np.max(np.abs(y))) + 1e-300
+            worst = max(worst, max(float(np.max(np.abs(out - y))), float(np.max(np.abs(zf[:, 0] - np.array(zs))))) / scale)
+        qref = traces.q(worst, 2 ** 30)
+    # the same seed in another interpreter (another PYTHONHASHSEED): the first samples must be the same numbers
+    xproc = 1
+    if spec.get("xproc"):
+        import subprocess, sys
+        code = ("import sys; sys.path.insert(0, %r); sys.path.insert(0, '/verif'); from vlib.drivers.C17 import make; "
+                "print(make(%r, %r, %r).get_series(8).tobytes().hex())" % (common.SRC, kind, seed, bool(spec["settled"])))
+        outp = subprocess.run([sys.executable, "-B", "-c", code], capture_output=True, text=True, timeout=600,
+                              env=dict(os.environ, PYTHONHASHSEED=str(1 + seed % 1000)))
+        mine = np.asarray(make(kind, seed, spec["settled"]).get_series(8)).tobytes().hex()
+        xproc = int(outp.returncode == 0 and outp.stdout.strip().splitlines()[-1:] == [mine])
     for e in ev:
         e["qref"] = qref
+        e["xproc"] = xproc
     return {"meta": dict(spec, sizes=sizes[:12]), "c": {"start": 0}, "ev": ev}
 
 
@@ -180,6 +198,8 @@ def run(tier):
         if (k // 4) % 2 == 0:          # every generator kind gets requests beyond 2^16 samples
             sizes.insert(rnd.randint(0, len(sizes)), rnd.choice([65536, 65537, 70000, 131073]))
         specs.append(dict(kind=["white", "red", "alpha", "pink"][k % 4], seed=rnd.randrange(2 ** 31), settled=bool(k % 3 == 0), sizes=sizes))
+    for k in range(4):             # a fresh interpreter with another hash seed must produce the same stream
+        specs.append(dict(kind=["white", "red", "alpha", "pink"][k], seed=rnd.randrange(2 ** 31), settled=bool(k % 2), sizes=[5, 3], xproc=True))
     for k in range(4):             # runs of single samples across several refills of the real 4096-sample prefetch buffer
         specs.append(dict(kind=["white", "red", "alpha", "pink"][k], seed=(0 if k % 2 else rnd.randrange(2 ** 31)), settled=False, sizes=[1, 4095, 1, 4096, 3000], by_sample=True))
     for k in range(4 if tier == "thorough" else 2):   # totals beyond 2^22 samples in one request against the same total in chunks
